@@ -56,6 +56,8 @@ type Val struct {
 	// Go-side function values
 	Fn   *ssa.Function
 	Bind []Val
+	// spec evaluation: heap state in which this reference is to be dereferenced (set by old(...))
+	St *State
 }
 
 type Leaf struct {
@@ -132,6 +134,8 @@ type Ctx struct {
 	axiomsOn bool
 	// modular bookkeeping
 	externUsed map[string]bool
+	rec        map[string]string // when non-nil: component keys (with sorts) read during spec evaluation
+	opReads    map[string][]string
 	inlineExtra map[string]bool
 	top        *FuncContract
 	subFuns    []string
@@ -430,6 +434,9 @@ func (c *Ctx) fieldLeafRange(S types.Type, i int) (int, int) {
 // Heap components
 
 func (c *Ctx) comp(st *State, key, sort string) string {
+	if c.rec != nil {
+		c.rec[key] = sort
+	}
 	if v, ok := st.heap[key]; ok {
 		return v
 	}
